@@ -22,6 +22,11 @@ odk-instance-first-load exactly when creating; every save_to cell is an entities
 bind and nowhere else; the entities namespace and entities-version are declared exactly when an entity is declared.
 Rejected: invalid dataset/property names, unknown entities columns, several entity rows, save_to in a repeat
 (at any depth) or on a group/repeat, save_to without an entity.
+Names and entity cells are data: families rw-* (cases_rewritable) cover property names, dataset names and entity cells
+whose text is one that XLSForm rewrites in other places (yes/no/true/false in every accepted capitalisation, near
+misses, empty-markers such as None/null/NA, type and column keywords), over placement, question type, neighbouring
+bind cells holding truth values, and the decision table; they must arrive verbatim (key C19:saveto-binds:value when
+the right bind carries entities:saveto with another text than the cell).
 """
 from __future__ import annotations
 
@@ -383,7 +388,12 @@ def check_declaration(spec, src, xf, o, V):
     # save_to
     want_s = sorted((f"/{root}/{it['path']}", val) for it, val in src["savetos"])
     if want_s != o["saveto"]:
-        V("C19:saveto-binds", f"entities:saveto on binds {o['saveto']} != save_to cells {want_s}")
+        if [p for p, _ in want_s] == [p for p, _ in o["saveto"]]:
+            # the right binds carry the attribute, but not with the text of the cell (the property name was rewritten)
+            diff = [(p, w, g) for (p, w), (_, g) in zip(want_s, o["saveto"]) if w != g]
+            V("C19:saveto-binds:value", f"entities:saveto value differs from the save_to cell (bind, cell, attribute): {diff}")
+        else:
+            V("C19:saveto-binds", f"entities:saveto on binds {o['saveto']} != save_to cells {want_s}")
 
 
 # ----------------------------------------------------------------------------- check
@@ -573,6 +583,171 @@ def build(combo, placement, exprs, dataset="trees", ns=None, ent_order=0, with_e
     return wb
 
 
+# --- round 3: cell texts that some normalisation step of the converter rewrites elsewhere ---------------------
+# The property quantifies over "dataset/property name strings" and "arbitrary expressions": a name or an entity cell
+# is data and has to arrive verbatim, also when its text happens to be a spelling that XLSForm rewrites in *other*
+# places (yes/no/true/false in the bind columns, type/column aliases, "empty" markers of spreadsheet readers, ...).
+TRUTH = [f(w) for w in ("yes", "no", "true", "false") for f in (str.lower, str.capitalize, str.upper)]
+NEAR_TRUTH = ["nO", "tRUE", "yEs", "yes_", "_no", "true-1", "false.0", "No.", "is_true", "y", "n", "Y", "N", "on", "off",
+              "ok", "oui", "si"]
+NULLISH = ["None", "none", "null", "NULL", "NA", "nan", "NaN", "nil", "undefined", "inf", "e1"]
+KEYWORDS = ["string", "int", "integer", "text", "calculate", "calculation", "required", "readonly", "relevant",
+            "constraint", "type", "id", "entity", "entities", "dataset", "list_name", "create", "update", "saveto",
+            "save_to", "meta", "instanceID", "baseVersion", "and", "or", "div", "mod", "today", "uuid", "once",
+            "position", "group", "repeat", "begin", "end", "select_one", "a", "id_q", "data", "root", "item"]
+REWRITABLE = TRUTH + NEAR_TRUTH + NULLISH + KEYWORDS
+# the same, restricted to what is also a valid dataset name (no period)
+REWRITABLE_DATASETS = [s for s in REWRITABLE if "." not in s]
+
+# question types (type cell, extra cells) on which a save_to cell is legitimate: any question outside a repeat
+QTYPES = [
+    ("text", {}), ("integer", {}), ("decimal", {}), ("date", {}), ("time", {}), ("dateTime", {}), ("geopoint", {}),
+    ("geotrace", {}), ("geoshape", {}), ("barcode", {}), ("image", {}), ("audio", {}), ("file", {}),
+    ("acknowledge", {}), ("note", {}), ("range", {"parameters": "start=1 end=5 step=1"}),
+    ("select_one l1", {}), ("select_multiple l1", {}), ("rank l1", {}), ("select_one_from_file f.csv", {}),
+    ("calculate", {"calculation": "1 + 1"}), ("calculate", {"calculation": "yes"}),
+    ("hidden", {}), ("start", {}), ("end", {}), ("today", {}), ("deviceid", {}), ("username", {}),
+    ("text", {"calculation": "${a}", "trigger": "${a}"}), ("text", {"required": "yes", "readonly": "no"}),
+]
+
+# other cells of the same row that carry truth spellings (these are rewritten, the save_to cell next to them is not)
+ROW_NEIGHBOURS = [
+    {"required": "yes"}, {"required": "No"}, {"readonly": "TRUE"}, {"readonly": "false"}, {"relevant": "yes"},
+    {"relevant": "${a} = 'yes'"}, {"constraint": "no"}, {"constraint": ". = 'no'", "constraint_message": "yes"},
+    {"required": "yes", "required_message": "no"}, {"calculation": "true"}, {"default": "yes"}, {"hint": "no"},
+    {"bind::foo": "yes"}, {"bind::jr:preload": "no"}, {"bind::odk:x": "true"}, {"appearance": "no-calendar"},
+    {"required": "yes", "readonly": "yes", "relevant": "yes", "constraint": "yes", "default": "no", "bind::foo": "no"},
+]
+
+# entity cells: bare truth spellings, quoted ones, and near misses, per column
+ENTITY_CELL_TEXTS = TRUTH + ["'yes'", '"No"', "'TRUE'", "true()", "false()", "not(true())", "None", "null", "1", "0",
+                             "yes and no", "${a} = 'yes'", "if(${a} = 'no', 'true', 'false')", "true or ${a}"]
+
+
+def build_flat(target_rows, entity, extra_headers=(), nest=0, settings=None):
+    """A small form: id_q, a, then `target_rows` (dicts header -> cell; 'begin group'/'end group' allowed), wrapped
+    in `nest` groups, then a select.  `entity` is a list of (header, cell) for the single entities row."""
+    headers = ["type", "name", "label", "save_to"]
+    for r in target_rows:
+        for h in r:
+            if h not in headers:
+                headers.append(h)
+    for h in extra_headers:
+        if h not in headers:
+            headers.append(h)
+    dicts = [{"type": "text", "name": "id_q", "label": "L id"}, {"type": "text", "name": "a", "label": "L a"}]
+    for i in range(nest):
+        dicts.append({"type": "begin group", "name": f"g{i + 1}", "label": f"G{i + 1}"})
+    dicts.extend(target_rows)
+    for i in range(nest):
+        dicts.append({"type": "end group"})
+    dicts.append({"type": "select_one l1", "name": "s", "label": "L s"})
+    dicts.append({"type": "text", "name": "z", "label": "L z"})
+    wb = WB()
+    wb["survey"] = (headers, [[d.get(h) for h in headers] for d in dicts])
+    wb["choices"] = (["list_name", "name", "label"], [["l1", "x", "X"], ["l1", "y", "Y"]])
+    if entity is not None:
+        wb["entities"] = ([h for h, _ in entity], [[c for _, c in entity]])
+    if settings:
+        wb["settings"] = (list(settings), [list(settings.values())])
+    return wb
+
+
+def entity_cols(combo, exprs, dataset="trees", dataset_header="dataset"):
+    cols = [(dataset_header, dataset)]
+    for present, col, val in zip(combo, ("entity_id", "create_if", "update_if", "label"), exprs):
+        if present:
+            cols.append((col, val))
+    return cols
+
+
+def cases_rewritable(tier, seed, add):
+    """Names and entity cells whose text is rewritten by some normalisation elsewhere (round 3)."""
+    thorough = tier == "thorough"
+    rnd = random.Random(seed * 7919 + 19)
+    create, update, both = (0, 0, 0, 1), (1, 0, 0, 1), (1, 1, 1, 1)
+    # R1. every such property name x placement (top level / group / nested groups / select) x create|update
+    for i, p in enumerate(REWRITABLE):
+        core = p in TRUTH
+        for wi, where in enumerate(("a", "b", "b2", "s", "z")):
+            for combo in (create, update):
+                if not thorough:
+                    if core and (where == "z" or (where == "b" and combo[0])):
+                        continue
+                    if not core and (wi != i % 5 or combo[0] != (i // 5) % 2):
+                        continue
+                add(f"prop={p!r} at {where} combo={combo}", build(combo, {where: p}, EXPRS[i % len(EXPRS)]), "rw-prop")
+    # whitespace around such a name is not part of it
+    for p in (" yes", "no ", "  TRUE  ", " False ", " None "):
+        add(f"prop={p!r}", build(create, {"a": p, "b": "p_b"}, EXPRS[0]), "rw-prop")
+    # R2. several of them in one form, next to ordinary names (pairs exhaustively in thorough, a cycle in quick)
+    pairs = list(itertools.permutations(TRUTH, 2)) if thorough else [(TRUTH[i], TRUTH[(i + k) % 12]) for i in range(12) for k in (1, 3)]
+    for i, (p, q) in enumerate(pairs):
+        pl = [{"a": p, "b2": q, "z": "p_z"}, {"id_q": p, "s": q, "b": "p_b"}, {"b": p, "h_after": q}][i % 3]
+        add(f"props {p!r},{q!r}", build((create, update, both)[i % 3], pl, EXPRS[i % len(EXPRS)]), "rw-props")
+    spots = ["id_q", "a", "b", "b2", "h_after", "s", "z"]
+    for k in range(12):
+        rot = TRUTH[k:] + TRUTH[:k]
+        add(f"seven truth-named properties, rotation {k}", build((create, update)[k % 2], dict(zip(spots, rot)), EXPRS[k % len(EXPRS)]), "rw-props")
+    # R3. question type x property name (the bind of every kind of question carries its save_to)
+    names = TRUTH + ["p_t", "None", "string", "nO"]
+    for ti, (qt, extra) in enumerate(QTYPES):
+        for ni, p in enumerate(names):
+            if not thorough and ni % 4 != ti % 4 and p != "p_t":
+                continue
+            for nest in (0, 2):
+                if not thorough and nest != (ti + ni) % 2 * 2:
+                    continue
+                row = {"type": qt, "name": "q", "label": "L q", "save_to": p, **extra}
+                add(f"type={qt!r} {extra} prop={p!r} nest={nest}",
+                    build_flat([row], entity_cols((create, update)[(ti + ni) % 2], EXPRS[0]), nest=nest), "rw-type")
+    # R4. truth spellings in the neighbouring cells of the row (those are rewritten; the save_to cell is not)
+    for xi, extra in enumerate(ROW_NEIGHBOURS):
+        for ni, p in enumerate(["yes", "No", "TRUE", "false", "p_n"]):
+            if not thorough and ni not in (xi % 5, (xi + 2) % 5):
+                continue
+            row = {"type": "text", "name": "q", "label": "L q", "save_to": p, **extra}
+            other = {"type": "integer", "name": "q2", "label": "L q2", "save_to": "p_q2", "required": "yes"}
+            add(f"neighbours {extra} prop={p!r}", build_flat([row, other], entity_cols((create, update, both)[xi % 3], EXPRS[0]), nest=xi % 2), "rw-row")
+    # R5. dataset names x create|update|both x header spelling
+    for i, ds in enumerate(REWRITABLE_DATASETS):
+        core = ds in TRUTH
+        for ci, combo in enumerate(((0, 0, 0, 1), (1, 0, 0, 0), (1, 1, 1, 1))):
+            for hi, hdr in enumerate(("dataset", "list_name")):
+                if not thorough and ((core and hi != (i + ci) % 2) or (not core and (ci != i % 3 or hi != i % 2))):
+                    continue
+                add(f"dataset={ds!r} combo={combo} hdr={hdr}",
+                    build(combo, {"a": "p_a", "b": ds}, EXPRS[i % len(EXPRS)], dataset=ds, dataset_header=hdr), "rw-dataset")
+    # R6. each entity cell in turn holds such a text (the others ordinary), on every valid combination having it
+    cols = ("entity_id", "create_if", "update_if", "label")
+    for slot in range(4):
+        for ti, txt in enumerate(ENTITY_CELL_TEXTS):
+            for ci, combo in enumerate([c for c in VALID_COMBOS if c[slot]]):
+                if not thorough and ci != ti % 2:
+                    continue
+                ex = list(EXPRS[ti % len(EXPRS)])
+                ex[slot] = txt
+                add(f"{cols[slot]}={txt!r} combo={combo}", build(combo, {"a": "p_a", "z": TRUTH[(ti + slot) % 12]}, ex, ent_order=ti + slot), "rw-cell")
+    # R7. everything at once: dataset, all entity cells and the property names are truth spellings
+    for k in range(12 if not thorough else 144):
+        t = [TRUTH[(k + 5 * j + (k // 12) * (j + 1)) % 12] for j in range(8)]
+        for combo in VALID_COMBOS:
+            if not thorough and combo != VALID_COMBOS[k % len(VALID_COMBOS)]:
+                continue
+            add(f"all truth {t} combo={combo}",
+                build(combo, {"a": t[0], "b2": t[1], "s": t[2]}, (t[3], t[4], t[5], t[6]), dataset=t[7], ent_order=k), "rw-all")
+    # R8. random crossings over the whole pool
+    pool = REWRITABLE + PROPS_OK
+    for i in range(80 if not thorough else 1500):
+        combo = rnd.choice(VALID_COMBOS)
+        k = rnd.choice([1, 2, 3, 4])
+        pl = {nm: rnd.choice(pool) for nm in rnd.sample(spots, k)}
+        ex = [rnd.choice(ENTITY_CELL_TEXTS) if rnd.random() < 0.3 else e for e in rnd.choice(EXPRS)]
+        add(f"random rewritable combo={combo} place={pl}",
+            build(combo, pl, ex, dataset=rnd.choice(REWRITABLE_DATASETS + DATASETS_OK[:7]), ns=rnd.choice(NAMESPACES[:3]),
+                  ent_order=rnd.randrange(720), dataset_header=rnd.choice(["dataset", "list_name"])), "rw-random")
+
+
 def cases(tier, seed):
     rnd = random.Random(seed)
     out = []
@@ -655,6 +830,8 @@ def cases(tier, seed):
             build(combo, pl, rnd.choice(EXPRS), dataset=rnd.choice(DATASETS_OK[:7] + (DATASETS_BAD if rnd.random() < 0.1 else [])),
                   ns=rnd.choice(NAMESPACES), ent_order=rnd.randrange(720),
                   choices_list=rnd.choice(["age_groups", "l1", "repeat_l"])), "random")
+    # 10. names / entity cells whose text some normalisation rewrites elsewhere (yes/no/true/false, aliases, ...)
+    cases_rewritable(tier, seed, add)
     return out
 
 
